@@ -329,8 +329,8 @@ add("C29", "c_client",
     note="One listed known finding (requests whose transport write fails on a dying connection are failed, not re-sent).",
     assumptions=["each transport frame written by the client is read completely by the peer before the peer acts"])
 add("C30", "c_client",
-    [T("TestC30", 20000, 200000), T("TestC30Concurrent", 20000, 200000), T("TestC30Load", 2000, 20000, env=CONN)],
-    rule="(c) the same notifications in flight: each is a goroutine stopped by the harness-owned storage before its load and before its save, with primary-DC changes and further notifications drawn in between (non-trivial = a migration or a second notification while one is in flight); (a) histories of session notifications through the build-tagged wrappers of onSession/onCDNSession: primary (for the current primary DC), non-primary DCs, CDN, interleaved with primary-DC changes (session.Migrate), PFS on/off; storage records every save; (b) stored sessions with intact / bit-flipped / truncated / extended key bytes and key ids, zeroed or foreign ids, loaded by Client.Run with a dialer that counts calls. non-trivial = a non-primary or CDN notification between two primary ones (a) / a corrupted session (b); distinct by history / mutation",
+    [T("TestC30", 20000, 200000), T("TestC30Concurrent", 20000, 200000), T("TestC30Client", 400, 4000, env={"GOMAXPROCS": "4"}), T("TestC30Load", 2000, 20000, env=CONN)],
+    rule="(d) a whole client against the harness server in real time with 4 Ps: restored session, the session announced before the config answer and (3/4) once more right after it, the client's clock taking 0/20/200/1000 us per reading (schedule perturbation: it widens whatever window lies around a clock reading); every stored session must pair DC 2 with that connection's key (non-trivial = announced again and a slow clock); (c) the same notifications in flight: each is a goroutine stopped by the harness-owned storage before its load and before its save, with primary-DC changes and further notifications drawn in between (non-trivial = a migration or a second notification while one is in flight); (a) histories of session notifications through the build-tagged wrappers of onSession/onCDNSession: primary (for the current primary DC), non-primary DCs, CDN, interleaved with primary-DC changes (session.Migrate), PFS on/off; storage records every save; (b) stored sessions with intact / bit-flipped / truncated / extended key bytes and key ids, zeroed or foreign ids, loaded by Client.Run with a dialer that counts calls. non-trivial = a non-primary or CDN notification between two primary ones (a) / a corrupted session (b); distinct by history / mutation",
     technique="stateful PBT (rapid) with a set-of-legitimate-notifications model; corruption-based PBT for loading",
     text="After every step the stored (DC, key, salt) equals a notification delivered for the DC that was primary when it was delivered (permanent key under PFS); non-primary and CDN notifications never rewrite it; with notifications in flight the stored record is always the (DC, key, salt) of one notification delivered by a connection to that DC; Run fails with the corrupted-key error before any dial whenever SHA1(key)[12:20] != id, and an intact session leads to a dial.",
     note="Notifications with this_dc = 0 (not sent by an honest server) are not generated.")
